@@ -668,6 +668,10 @@ func (eval Evaluator) Mul(op0 *rlwe.Ciphertext, op1 rlwe.Operand, opOut *rlwe.Ci
 		if cmplxBig.IsInt() {
 			scale = rlwe.NewScale(1) // Scalar is a GaussianInteger, thus no scaling required
 		} else {
+			if level < eval.GetParameters().LevelsConsumedPerRescaling()-1 {
+				return fmt.Errorf("cannot Mul: level %d is too low to scale the constant by %d primes", level, eval.GetParameters().LevelsConsumedPerRescaling())
+			}
+
 			scale = rlwe.NewScale(ringQ.SubRings[level].Modulus) // Current modulus scaling factor
 
 			// If DefaultScalingFactor > 2^60, then multiple moduli are used per single rescale
@@ -696,6 +700,10 @@ func (eval Evaluator) Mul(op0 *rlwe.Ciphertext, op1 rlwe.Operand, opOut *rlwe.Ci
 		}
 
 		opOut.Resize(op0.Degree(), level)
+
+		if level < eval.GetParameters().LevelsConsumedPerRescaling()-1 {
+			return fmt.Errorf("cannot Mul: level %d is too low to scale the plaintext by %d primes", level, eval.GetParameters().LevelsConsumedPerRescaling())
+		}
 
 		// Gets the ring at the target level
 		ringQ := eval.GetParameters().RingQ().AtLevel(level)
@@ -970,6 +978,10 @@ func (eval Evaluator) MulThenAdd(op0 *rlwe.Ciphertext, op1 rlwe.Operand, opOut *
 			if cmplxBig.IsInt() {
 				scaleRLWE = rlwe.NewScale(1)
 			} else {
+				if level < eval.GetParameters().LevelsConsumedPerRescaling()-1 {
+					return fmt.Errorf("cannot MulThenAdd: level %d is too low to scale the constant by %d primes", level, eval.GetParameters().LevelsConsumedPerRescaling())
+				}
+
 				scaleRLWE = rlwe.NewScale(ringQ.SubRings[level].Modulus)
 
 				for i := 1; i < eval.GetParameters().LevelsConsumedPerRescaling(); i++ {
@@ -1014,6 +1026,10 @@ func (eval Evaluator) MulThenAdd(op0 *rlwe.Ciphertext, op1 rlwe.Operand, opOut *
 
 		var scaleRLWE rlwe.Scale
 		if cmp := op0.Scale.Cmp(opOut.Scale); cmp == 0 { // If op0 and opOut scales are identical then multiplies opOut by scaleRLWE.
+
+			if level < eval.GetParameters().LevelsConsumedPerRescaling()-1 {
+				return fmt.Errorf("cannot MulThenAdd: level %d is too low to scale the plaintext by %d primes", level, eval.GetParameters().LevelsConsumedPerRescaling())
+			}
 
 			scaleRLWE = rlwe.NewScale(ringQ.SubRings[level].Modulus)
 
